@@ -4,7 +4,7 @@
    implementation's observations.
 
    A Go string is modelled as the list of its runes (valid UTF-8 is assumed;
-   see checks/C38.md for what happens with invalid UTF-8).  Rune 0 is Go's
+   words with invalid UTF-8 are judged directly by the harness, see checks/C38.md).  Rune 0 is Go's
    "no short name", the empty list is "no long name". *)
 From verif Require Import lib.Base gen.Consts.
 From verif Require lib.Utf8.
@@ -42,15 +42,19 @@ Definition bitSADD : Z := pkg_getopt.StopAfterDoubleDash.
 Definition bitSBFN : Z := pkg_getopt.StopBeforeFirstNonOption.
 Definition bitLO : Z := pkg_getopt.LongOnly.
 
+(* a zero Short means "no short form" and never matches *)
 Fixpoint findShort (r : N) (specs : list ospec) : option ospec :=
   match specs with
   | [] => None
-  | sp :: rest => if N.eqb r (s_short sp) then Some sp else findShort r rest
+  | sp :: rest =>
+    if negb (N.eqb (s_short sp) 0) && N.eqb r (s_short sp) then Some sp else findShort r rest
   end.
 
 Definition is_nil {A} (l : list A) : bool := match l with [] => true | _ => false end.
 
-(* parseShort: the argument without the leading dash *)
+(* parseShort: the argument without the leading dash.  The rest of the word
+   after a rune is taken with the width the decoder used (s[i+size:]), i.e. the
+   remaining runes. *)
 Fixpoint parseShort (s : str) (specs : list ospec) : list opt * bool :=
   match s with
   | [] => ([], false)
@@ -76,6 +80,8 @@ Fixpoint parseLong_loop (s : str) (eq : option nat) (specs : list ospec) : optio
   match specs with
   | [] => None
   | sp :: rest =>
+    if is_nil (s_long sp) then parseLong_loop s eq rest   (* no long form: continue *)
+    else
     if str_eqb s (s_long sp) then Some (mkOpt sp false true [], arity_eqb (s_arity sp) ReqArg)
     else match eq with
          | Some e =>
@@ -412,16 +418,6 @@ Definition specs_distinct (specs : list ospec) : bool :=
   && distinct_by str_eqb (map s_long (filter named_long specs)).
 Definition longs_no_eq (specs : list ospec) : bool :=
   forallb (fun sp => negb (contains EQ (s_long sp))) specs.
-
-(* Items of the two recorded defect classes (checks/C38.findings.jsonl): an
-   unknown option whose name is the "no name" value (rune 0 / empty string)
-   while some spec lacks that kind of name.  The code matches such a spec. *)
-Definition item_ok (specs : list ospec) (it : item) : bool :=
-  match it with
-  | IShorts _ (EUnk r _) => negb (N.eqb r 0) || forallb named_short specs
-  | ILongUnk _ name _ => negb (is_nil name) || forallb named_long specs
-  | _ => true
-  end.
 
 (* ---- reading an arbitrary argument list as items (reference tokenizer) ---- *)
 Inductive pend :=
